@@ -5,6 +5,7 @@ from __future__ import annotations
 import ast
 
 from ..astutil import AnalysisError, dotted, src, walk_local, calls_in, kwarg
+from .. import pattern as P
 
 TQ = "cohdl/_core/_type_qualifier.py"
 IRR = "cohdl/_core/_ir/_repr.py"
@@ -27,7 +28,7 @@ def _aliases_storage(fn: ast.AST, expr: ast.AST) -> bool:
             if isinstance(n, ast.Assign) and any(isinstance(x, ast.Name) and x.id == expr.id for x in n.targets):
                 if direct(n.value):
                     return True
-            if isinstance(n, ast.For) and expr.id in {x.id for x in ast.walk(n.target) if isinstance(x, ast.Name)} and "self._value" in src(n.iter):
+            if isinstance(n, ast.For) and expr.id in {x.id for x in ast.walk(n.target) if isinstance(x, ast.Name)} and "self._value" in P.T(n.iter):
                 return True
     return False
 
@@ -67,16 +68,16 @@ def run_rule(run, rule_id="F-VIEW"):
         ref = kwarg(c, "_ref_spec")
         n = sum(1 for s in sites if s[1] is f and s[2].lineno <= c.lineno)
         construct = f"{name}#{n}"
-        run.ob(root is not None and src(root) == "self._root", construct, file=mod.rel, line=c.lineno, detail="_root",
+        run.ob(root is not None and P.T(root) == "self._root", construct, file=mod.rel, line=c.lineno, detail="_root",
                expected="_root=self._root", found=src(root) if root is not None else "not passed: the view becomes its own root")
         if ref is None:
             run.ob(False, construct, file=mod.rel, line=c.lineno, detail="_ref_spec", expected="_ref_spec passed", found="not passed: the view refers to the whole object")
             continue
-        t = src(ref)
+        t = P.T(ref)
         if t == "self._ref_spec":
             run.ob(True, construct, file=mod.rel, line=c.lineno, detail="_ref_spec", expected="same bits: self._ref_spec", found=t)
             # only the type views may reuse the spec unchanged
-            ok = src(c.args[0]) in ("cast",) or ".unsigned" in src(c.args[0]) or ".signed" in src(c.args[0]) or ".bitvector" in src(c.args[0]) or any(
+            ok = src(c.args[0]) in ("cast",) or ".unsigned" in P.T(c.args[0]) or ".signed" in P.T(c.args[0]) or ".bitvector" in P.T(c.args[0]) or any(
                 isinstance(a, ast.Assign) and dotted(a.targets[0]) == dotted(c.args[0]) and src(a.value) in ("self._value.unsigned", "self._value.signed", "self._value.bitvector")
                 for a in ast.walk(f.node))
             run.ob(ok, construct, file=mod.rel, line=c.lineno, detail="_ref_spec.unchanged-only-for-type-views", expected="unchanged spec only for .unsigned/.signed/.bitvector", found=src(c.args[0]))
@@ -97,7 +98,7 @@ def run_rule(run, rule_id="F-VIEW"):
                         applied = a.value.slice
             if name.endswith("__getitem__"):
                 if kind2 == "Slice":
-                    ok2 = args == ["arg.start", "arg.stop", "base_offset"] and applied is not None and src(applied) == "arg.start:arg.stop"
+                    ok2 = args == ["arg.start", "arg.stop", "base_offset"] and applied is not None and P.T(applied) == "arg.start:arg.stop"
                     exp = "Slice(arg.start, arg.stop, base_offset) for self._value[arg.start:arg.stop]"
                 else:
                     ok2 = args == ["arg", "base_offset"]
@@ -109,13 +110,13 @@ def run_rule(run, rule_id="F-VIEW"):
     # base offset chain and prev in __getitem__ / __iter__
     tq = idx.mod(TQ)
     gi = tq.func("TypeQualifier.__getitem__")
-    t = src(gi.node)
+    t = P.T(gi.node)
     ok = "base_offset = [*last_ref.base_offset, last_ref.stop]" in t and "prev = ref_spec[:-1]" in t and "base_offset = []" in t
     bo = [a for a in ast.walk(gi.node) if isinstance(a, ast.Assign) and dotted(a.targets[0]) == "base_offset"]
     run.ob(ok, "TypeQualifier.__getitem__", file=tq.rel, line=(bo[0].lineno if bo else gi.node.lineno), detail="nested-slice-offset",
            expected="base_offset = [*last_ref.base_offset, last_ref.stop] (offsets of all enclosing slices accumulate)", found="; ".join(src(a.value) for a in bo))
     it = tq.func("TypeQualifier.__iter__")
-    t = src(it.node)
+    t = P.T(it.node)
     ok = "offset = self._ref_spec[-1].stop" in t and "prev = self._ref_spec[:-1]" in t and "enumerate(self._value)" in t
     run.ob(ok, "TypeQualifier.__iter__", file=tq.rel, line=it.node.lineno, detail="slice-offset", expected="elements of a slice are offset by the slice's stop index", found="ok" if ok else "changed")
     # the two rewrite sites outside the class
@@ -123,7 +124,15 @@ def run_rule(run, rule_id="F-VIEW"):
         m = idx.mod(rel)
         f = m.func(q)
         cs = [c for c in ast.walk(f.node) if isinstance(c, ast.Call) and isinstance(c.func, ast.Subscript) and kwarg(c, "_root") is not None]
-        ok = len(cs) == 1 and src(kwarg(cs[0], "_root")) == rootexpr and src(kwarg(cs[0], "_ref_spec") or ast.Constant(value=None)) == "obj._ref_spec"
+        # _root=<map>[<the root of obj>]: the key is obj._root itself or a local assigned from it (any spelling)
+        ok = False
+        if len(cs) == 1:
+            rk = kwarg(cs[0], "_root")
+            key_ok = False
+            if isinstance(rk, ast.Subscript) and isinstance(rk.value, ast.Name):
+                key = rk.slice
+                key_ok = src(key) == "obj._root" or (isinstance(key, ast.Name) and P.has(f.node, "__k = obj._root", {"__k": key.id}))
+            ok = key_ok and src(kwarg(cs[0], "_ref_spec") or ast.Constant(value=None)) == "obj._ref_spec"
         run.ob(ok, q.split(".<locals>.")[-1], file=rel, line=(cs[0].lineno if cs else f.node.lineno), detail="rewrite-keeps-view",
                expected=f"_root={rootexpr}, _ref_spec=obj._ref_spec", found=src(cs[0])[:100] if cs else "missing")
     run.end()
